@@ -253,30 +253,50 @@ static void waiting_store (nsync_atomic_uint32_ *p, uint32_t v, int order) {
 /* ------------------------------------------------------------------ */
 /* dispatch                                                             */
 
-#ifndef VP_EXTRA_DISPATCH
-#define VP_EXTRA_CAS(p,o,n,order)
-#define VP_EXTRA_LOAD(p,order)
-#define VP_EXTRA_STORE(p,v,order)
+#ifdef VP_RG_SEM
+int vp_sem_cas (nsync_atomic_uint32_ *p, uint32_t o, uint32_t n, int order);
+uint32_t vp_sem_load (nsync_atomic_uint32_ *p, int order);
+void vp_sem_store (nsync_atomic_uint32_ *p, uint32_t v, int order);
+#define VP_SEM_CAS(p,o,n,order) if ((p) == vp_reg.sem_word) return vp_sem_cas ((p), (o), (n), (order))
+#define VP_SEM_LOAD(p,order) if ((p) == vp_reg.sem_word) return vp_sem_load ((p), (order))
+#define VP_SEM_STORE(p,v,order) if ((p) == vp_reg.sem_word) { vp_sem_store ((p), (v), (order)); return; }
+#else
+#define VP_SEM_CAS(p,o,n,order)
+#define VP_SEM_LOAD(p,order)
+#define VP_SEM_STORE(p,v,order)
 #endif
 
+#ifdef VP_RG_MU
+#define VP_MU_CAS(p,o,n,order) if ((p) == vp_reg.mu_word) return mu_cas ((p), (o), (n), (order))
+#define VP_MU_LOAD(p,order) if ((p) == vp_reg.mu_word) return mu_load ((p), (order)); if ((p) == vp_reg.my_waiting) return waiting_load ((p), (order))
+#define VP_MU_STORE(p,v,order) if ((p) == vp_reg.mu_word) { mu_store ((p), (v), (order)); return; } if ((p) == vp_reg.my_waiting) { waiting_store ((p), (v), (order)); return; }
+#else
+#define VP_MU_CAS(p,o,n,order)
+#define VP_MU_LOAD(p,order)
+#define VP_MU_STORE(p,v,order)
+#endif
+
+void vp_reg_clear (void) {
+	vp_reg.mu_word = NULL; vp_reg.my_waiting = NULL; vp_reg.cv_word = NULL; vp_reg.once_word = NULL;
+	vp_reg.sem_word = NULL; vp_reg.value_word = NULL; vp_reg.notified_word = NULL;
+}
+
 int vp_cas (nsync_atomic_uint32_ *p, uint32_t o, uint32_t n, int order) {
-	if (p == vp_reg.mu_word) return mu_cas (p, o, n, order);
-	VP_EXTRA_CAS (p, o, n, order);
+	VP_MU_CAS (p, o, n, order);
+	VP_SEM_CAS (p, o, n, order);
 	if (p != vp_reg.my_waiting) *p = vp_nondet_u32 ();   /* unregistered: any environment */
 	if (*p != o) return 0;
 	*p = n;
 	return 1;
 }
 uint32_t vp_load (nsync_atomic_uint32_ *p, int order) {
-	if (p == vp_reg.mu_word) return mu_load (p, order);
-	if (p == vp_reg.my_waiting) return waiting_load (p, order);
-	VP_EXTRA_LOAD (p, order);
+	VP_MU_LOAD (p, order);
+	VP_SEM_LOAD (p, order);
 	*p = vp_nondet_u32 ();
 	return *p;
 }
 void vp_store (nsync_atomic_uint32_ *p, uint32_t v, int order) {
-	if (p == vp_reg.mu_word) { mu_store (p, v, order); return; }
-	if (p == vp_reg.my_waiting) { waiting_store (p, v, order); return; }
-	VP_EXTRA_STORE (p, v, order);
+	VP_MU_STORE (p, v, order);
+	VP_SEM_STORE (p, v, order);
 	*p = v;
 }
